@@ -67,6 +67,10 @@ impl FormalArgs {
         }
         let positional = args.take_positional(self.0.len());
         for ((name, _default), value) in self.0.iter().zip(&positional) {
+            if args.named.contains_key(name) {
+                // Passed both by position and by name.
+                return Err(ArgsError::Unexpected(name.clone()));
+            }
             argscope.define(name.clone(), value.clone())?;
         }
         if self.0.len() > positional.len() {
